@@ -103,6 +103,7 @@ func init() {
 		return ex.Concretize(s)
 	}
 	externals[vtPkg+"Concrete64"] = func(fr *frame, args []value) value { return fr.i.ex.Concretize(args[0]) }
+	externals[vtPkg+"U8c"] = func(fr *frame, args []value) value { return fr.i.ex.Concretize(args[0]) }
 	externals[vtPkg+"ConcreteInt"] = func(fr *frame, args []value) value { return fr.i.ex.Concretize(args[0]) }
 	externals[vtPkg+"Ite64"] = func(fr *frame, args []value) value {
 		if b, ok := args[0].(bool); ok {
